@@ -1,5 +1,354 @@
 package main
 
-func c05CoqCase(c *c05Chain, in c05Input, blocks []*c05BlockRec) string { return "CStub" }
+// Coq term printers for the C05 / C01 cases (Harness/C05.v, Harness/C01.v) and the two behaviour probes that tell
+// the model which of the two repaired behaviours (F7, F23) the tree under test has.
 
-func c01CoqCase(c *c05Chain, in c01Input, blocks []*c05BlockRec, obs []*c01Obs) string { return "CStub" }
+import (
+	"fmt"
+	"sort"
+	"strings"
+
+	"github.com/nspcc-dev/neo-go/pkg/config"
+)
+
+func c05N(i int) string { return fmt.Sprintf("%d%%N", i) }
+func c05NList(l []int) string {
+	xs := make([]string, len(l))
+	for i, x := range l {
+		xs[i] = fmt.Sprint(x)
+	}
+	return "[" + strings.Join(xs, ";") + "]%N"
+}
+func c05ZS(s string) string {
+	if strings.HasPrefix(s, "-") {
+		return "(" + s + ")"
+	}
+	return s
+}
+func c05OptN(i int) string {
+	if i < 0 {
+		return "None"
+	}
+	return "(Some " + c05N(i) + ")"
+}
+
+var c05KindNames = []string{"KPlain", "KAcceptor", "KNoCb", "KRejector", "KNotary", "KNeo", "KGas", "KNative"}
+
+// ---------- probes ----------
+
+type c05Fixes struct{ F7, F23 bool }
+
+var c05FixCache = map[string]*c05Fixes{}
+
+// c05Probe measures, on a scratch chain of the tree under test, (F7) whether a Policy.blockAccount of a committee
+// candidate with no NEO movement afterwards changes the next-epoch validators of a node that keeps running, and
+// (F23) whether a dropped candidate's cached gas-per-vote is gone when it registers again.
+func c05Probe(hf string) (*c05Fixes, error) {
+	if f, ok := c05FixCache[hf]; ok {
+		return f, nil
+	}
+	mk := func(ops []c05Op) (*c05Chain, *c05Runner, error) {
+		t := &c05TB{}
+		c, err := c05Setup(t, hf, nil)
+		if err != nil {
+			t.done()
+			return nil, nil, err
+		}
+		run, err := c05NewRunner(c, nil)
+		if err != nil {
+			c.close()
+			return nil, nil, err
+		}
+		for _, op := range ops {
+			if err := run.submit(op); err != nil {
+				c.close()
+				return nil, nil, err
+			}
+		}
+		return c, run, nil
+	}
+	var base []c05Op
+	for a := 1; a <= 14; a++ {
+		base = append(base, c05Op{T: "gt", F: 0, To: a, A: 30000_0000_0000})
+	}
+	base = append(base, c05Op{T: "blk"})
+	cands := []int{9, 10, 11, 12, 13, 14, 8}
+	for i := 0; i < 7; i++ {
+		base = append(base, c05Op{T: "nt", F: 0, To: i + 1, A: int64(7-i) * 1000000}, c05Op{T: "reg", F: cands[i]})
+	}
+	base = append(base, c05Op{T: "blk"})
+	for i := 0; i < 7; i++ {
+		base = append(base, c05Op{T: "vote", F: i + 1, To: cands[i]})
+	}
+	for i := 0; i < 16; i++ { // up to height 19 (epochs start at 6, 12, 18)
+		base = append(base, c05Op{T: "blk"})
+	}
+	res := &c05Fixes{}
+	// F7
+	ops := append(append([]c05Op{}, base...), c05Op{T: "block", To: 9}, c05Op{T: "blk"}, c05Op{T: "blk"}, c05Op{T: "blk"}, c05Op{T: "blk"})
+	c, _, err := mk(ops)
+	if err != nil {
+		return nil, err
+	}
+	if c.bc.BlockHeight() != 23 {
+		c.close()
+		return nil, fmt.Errorf("probe: height %d", c.bc.BlockHeight())
+	}
+	blockedKey := c.u.keyOfAcct[9]
+	res.F7 = true
+	for _, k := range c.bc.ComputeNextBlockValidators() {
+		if c.u.key(k.Bytes()) == blockedKey {
+			res.F7 = false
+		}
+	}
+	c.close()
+	// F23
+	ops = append(append([]c05Op{}, base...), c05Op{T: "vote", F: 1, K: -1}, c05Op{T: "blk"}, c05Op{T: "unreg", F: 9}, c05Op{T: "blk"},
+		c05Op{T: "reg", F: 9}, c05Op{T: "blk"}, c05Op{T: "vote", F: 1, To: 9}, c05Op{T: "blk"})
+	c, run, err := mk(ops)
+	if err != nil {
+		return nil, err
+	}
+	d := run.blocks[len(run.blocks)-1].Dump
+	found := false
+	for _, a := range d.Neo {
+		if a.A == 1 && a.Vote == c.u.keyOfAcct[9] {
+			found = true
+			res.F23 = a.LGPV == "0"
+		}
+	}
+	c.close()
+	if !found {
+		return nil, fmt.Errorf("probe: the voter of the F23 scenario did not vote")
+	}
+	c05FixCache[hf] = res
+	return res, nil
+}
+
+// ---------- terms ----------
+
+func c05CfgTerm(c *c05Chain, hf string, fx *c05Fixes) string {
+	u := c.u
+	kinds := make([]string, len(u.kinds))
+	for i, k := range u.kinds {
+		kinds[i] = c05KindNames[k]
+	}
+	hfs := c05Hardforks(hf)
+	_, faun := hfs[config.HFFaun.String()]
+	_, gorgon := hfs[config.HFGorgon.String()]
+	return fmt.Sprintf("(mkCfg %s %s %d [%s] %s %s %s %d %s %s %s %s)",
+		c05NList(u.acctOfKey), c05NList(u.standby), c.nval, strings.Join(kinds, ";"),
+		c05N(c05ANotary), c05N(c05ANeo), c05N(c05AGas), c.bc.GetConfig().InitialGASSupply,
+		coqBool(faun), coqBool(gorgon), coqBool(fx.F7), coqBool(fx.F23))
+}
+
+func c05OpTerm(c *c05Chain, op c05Op, sysfee int64) string {
+	u := c.u
+	from := op.F
+	if op.W != 0 {
+		from = op.W
+	}
+	keyOpt := func(k int) string {
+		if k < 0 || k >= len(u.keys) {
+			return "None"
+		}
+		return c05OptN(k)
+	}
+	ownKey := u.keyOfAcct[op.F]
+	switch op.T {
+	case "nt":
+		return fmt.Sprintf("(ONeoT %s %s %s)", c05N(from), c05N(op.To), coqZi(op.A))
+	case "gt":
+		return fmt.Sprintf("(OGasT %s %s %s DNone)", c05N(from), c05N(op.To), coqZi(op.A))
+	case "vote":
+		k := op.K
+		if op.To > 0 {
+			if kk, ok := u.keyOfAcct[op.To]; ok {
+				k = kk
+			}
+		}
+		return fmt.Sprintf("(OVote %s %s)", c05N(from), keyOpt(k))
+	case "reg":
+		return fmt.Sprintf("(OReg %s %s)", c05N(ownKey), coqZi(sysfee))
+	case "regpay":
+		return fmt.Sprintf("(OGasT %s %s %s (DKey %s))", c05N(op.F), c05N(c05ANeo), coqZi(op.A), c05N(ownKey))
+	case "unreg":
+		return fmt.Sprintf("(OUnreg %s)", c05N(ownKey))
+	case "dep":
+		to := -1
+		if op.To != 0 {
+			to = op.To
+		}
+		return fmt.Sprintf("(OGasT %s %s %s (DDeposit %s %s))", c05N(op.F), c05N(c05ANotary), coqZi(op.A), c05OptN(to), coqZi(int64(op.N)))
+	case "wd":
+		to := -1
+		if op.To != 0 {
+			to = op.To
+		}
+		return fmt.Sprintf("(OWithdraw %s %s)", c05N(from), c05OptN(to))
+	case "lock":
+		return fmt.Sprintf("(OLock %s %s)", c05N(op.F), coqZi(int64(op.N)))
+	case "fault", "oog":
+		return "OAbort"
+	case "setgpb":
+		return fmt.Sprintf("(OSetGPB %s)", coqZi(op.A))
+	case "setreg":
+		return fmt.Sprintf("(OSetReg %s)", coqZi(op.A))
+	case "block":
+		return fmt.Sprintf("(OBlock %s)", c05N(op.To))
+	case "unblock":
+		return fmt.Sprintf("(OUnblock %s)", c05N(op.To))
+	case "setfpb":
+		return fmt.Sprintf("(OPolicy 10 %s)", coqZi(op.A))
+	case "setexec":
+		return fmt.Sprintf("(OPolicy 18 %s)", coqZi(op.A))
+	case "setstor":
+		return fmt.Sprintf("(OPolicy 19 %s)", coqZi(op.A))
+	case "setattr":
+		return fmt.Sprintf("(OPolicy %d %s)", 5120+op.N, coqZi(op.A))
+	}
+	return "OOpaque"
+}
+
+func c05IsCommitteeOp(t string) bool {
+	switch t {
+	case "setgpb", "setreg", "block", "unblock", "setfpb", "setexec", "setstor", "setattr", "role", "setvub", "setms":
+		return true
+	}
+	return false
+}
+
+func c05EventTerm(e c05Event) string {
+	tok := "NEO"
+	if e.Tok == 1 {
+		tok = "GAS"
+	}
+	return fmt.Sprintf("mkEv %s %s %s %s", tok, c05OptN(e.From), c05OptN(e.To), c05ZS(e.Amt))
+}
+
+func c05DumpTerm(d *c05Dump) string {
+	var sb strings.Builder
+	neo := append([]c05NeoAcc{}, d.Neo...)
+	sort.Slice(neo, func(i, j int) bool { return neo[i].A < neo[j].A })
+	gas := append([]c05Bal{}, d.Gas...)
+	sort.Slice(gas, func(i, j int) bool { return gas[i].A < gas[j].A })
+	cands := append([]c05Cand{}, d.Cands...)
+	sort.Slice(cands, func(i, j int) bool { return cands[i].K < cands[j].K })
+	var gpv []c05KV
+	for _, x := range d.GPV {
+		if x.V != "0" {
+			gpv = append(gpv, x)
+		}
+	}
+	sort.Slice(gpv, func(i, j int) bool { return gpv[i].K < gpv[j].K })
+	deps := append([]c05Dep{}, d.Deposits...)
+	sort.Slice(deps, func(i, j int) bool { return deps[i].A < deps[j].A })
+	blocked := append([]int{}, d.Blocked...)
+	sort.Ints(blocked)
+	gpb := append([]c05KV{}, d.GasPerBlock...)
+	sort.Slice(gpb, func(i, j int) bool { return gpb[i].K < gpb[j].K })
+	list := func(n int, f func(i int) string) string {
+		xs := make([]string, n)
+		for i := range xs {
+			xs[i] = f(i)
+		}
+		return "[" + strings.Join(xs, ";") + "]"
+	}
+	fmt.Fprintf(&sb, "(mkDump %s %s %s ", c05ZS(d.NeoTotal), c05ZS(d.GasTotal), c05ZS(d.VotersCount))
+	sb.WriteString(list(len(neo), func(i int) string {
+		x := neo[i]
+		return fmt.Sprintf("(%s,(%s,%d,%s,%s))", c05N(x.A), c05ZS(x.Bal), x.Height, c05OptN(x.Vote), c05ZS(x.LGPV))
+	}) + " ")
+	sb.WriteString(list(len(gas), func(i int) string { return fmt.Sprintf("(%s,%s)", c05N(gas[i].A), c05ZS(gas[i].Bal)) }) + " ")
+	sb.WriteString(list(len(cands), func(i int) string {
+		return fmt.Sprintf("(%s,(%s,%s))", c05N(cands[i].K), coqBool(cands[i].Reg), c05ZS(cands[i].Votes))
+	}) + " ")
+	sb.WriteString(list(len(gpv), func(i int) string { return fmt.Sprintf("(%s,%s)", c05N(gpv[i].K), c05ZS(gpv[i].V)) }) + " ")
+	sb.WriteString(list(len(deps), func(i int) string {
+		return fmt.Sprintf("(%s,(%s,%d))", c05N(deps[i].A), c05ZS(deps[i].Amount), deps[i].Till)
+	}) + " ")
+	sb.WriteString(list(len(d.Committee), func(i int) string { return fmt.Sprintf("(%s,%s)", c05N(d.Committee[i].K), c05ZS(d.Committee[i].V)) }) + " ")
+	sb.WriteString(list(len(gpb), func(i int) string { return fmt.Sprintf("(%d,%s)", gpb[i].K, c05ZS(gpb[i].V)) }) + " ")
+	sb.WriteString(c05ZS(d.RegPrice) + " " + c05NList(blocked) + ")")
+	return sb.String()
+}
+
+// c05TxTerms prints the transactions of one block; csig = the committee key ids the committee-only operations
+// of that block were co-signed with (recorded when the transaction was built).
+func c05TxTerms(c *c05Chain, ops []c05Op, b *c05BlockRec) string {
+	var xs []string
+	for j, t := range b.Txs {
+		op := c05Op{T: "opaque"}
+		if t.Op >= 0 && t.Op < len(ops) {
+			op = ops[t.Op]
+		}
+		tx := b.blk.Transactions[j]
+		csig := "[]"
+		if c05IsCommitteeOp(op.T) && b.csigs[t.Op] != nil {
+			csig = c05NList(b.csigs[t.Op])
+		}
+		res := "None"
+		if t.Res == 1 {
+			res = "(Some true)"
+		} else if t.Res == 0 {
+			res = "(Some false)"
+		}
+		xs = append(xs, fmt.Sprintf("mkTx %s %d %d %s %s %s %s", c05N(t.Sender), tx.SystemFee, tx.NetworkFee, csig,
+			c05OpTerm(c, op, tx.SystemFee), coqBool(t.Halt), res))
+	}
+	return "[" + strings.Join(xs, ";\n      ") + "]"
+}
+
+func c05BlockTerm(c *c05Chain, ops []c05Op, b *c05BlockRec) string {
+	var evs []c05Event
+	evs = append(evs, b.Pre...)
+	for _, t := range b.Txs {
+		evs = append(evs, t.Events...)
+	}
+	evs = append(evs, b.Post...)
+	es := make([]string, len(evs))
+	for i, e := range evs {
+		es[i] = c05EventTerm(e)
+	}
+	return fmt.Sprintf("mkB %s\n     [%s]\n     %s", c05TxTerms(c, ops, b), strings.Join(es, ";"), c05DumpTerm(b.Dump))
+}
+
+func c05CoqCase(c *c05Chain, in c05Input, blocks []*c05BlockRec) string {
+	fx, err := c05Probe(in.HF)
+	if err != nil {
+		panic(err)
+	}
+	bs := make([]string, len(blocks))
+	for i, b := range blocks {
+		bs[i] = c05BlockTerm(c, in.Ops, b)
+	}
+	return fmt.Sprintf("CHist %s\n   [%s]", c05CfgTerm(c, in.HF, fx), strings.Join(bs, ";\n    "))
+}
+
+func c01CoqCase(c *c05Chain, in c01Input, blocks []*c05BlockRec, obs []*c01Obs) string {
+	fx, err := c05Probe(in.Proto.HF)
+	if err != nil {
+		panic(err)
+	}
+	// the model is restarted after every height at which some replica of the case restarts
+	seen := map[int]bool{}
+	var restarts []string
+	for _, rp := range in.Replicas {
+		for _, h := range rp.Restarts {
+			if !seen[h] {
+				seen[h] = true
+				restarts = append(restarts, fmt.Sprint(h))
+			}
+		}
+	}
+	bs := make([]string, len(blocks))
+	for i, b := range blocks {
+		o := obs[i]
+		pol := []string{fmt.Sprint(o.Policy[0]), fmt.Sprint(o.Policy[1]), fmt.Sprint(o.Policy[2])}
+		blocked := append([]int{}, o.Blocked...)
+		sort.Ints(blocked)
+		bs[i] = fmt.Sprintf("mkGB %s\n     (mkG %s %s %s %s [%s])", c05TxTerms(c, in.Ops, b),
+			c05NList(o.Committee), c05NList(o.NextVals), c05NList(o.NewEpoch), c05NList(blocked), strings.Join(pol, ";"))
+	}
+	return fmt.Sprintf("CGov %s [%s]\n   [%s]", c05CfgTerm(c, in.Proto.HF, fx), strings.Join(restarts, ";"), strings.Join(bs, ";\n    "))
+}
